@@ -63,6 +63,32 @@ def build(chk: Check) -> None:
     bounded_layer(chk)
     particle_table(chk)
     symmetrised_selection(chk)
+    selector_key_identity(chk)
+
+
+def selector_key_identity(chk: Check) -> None:
+    """The selector is a dict keyed by TwoBodyDecay: 'the selection denotes exactly these nodes' needs key equality to be equality of
+    EVERY field (edge ids included). attrs generates __eq__/__hash__ from the fields with eq=True (attrs' contract, assumed), so the
+    obligation is structural and holds for all instances: every field of TwoBodyDecay, StateWithID and qrules' State/Particle/Spin takes
+    part in equality, and none of the classes overrides __eq__/__hash__ by hand."""
+    import attrs
+    import qrules.transition as qt
+    from ampform.helicity import decay as D
+
+    chk.assume("attrs-generated __eq__/__hash__ compare exactly the fields with eq=True (attrs' contract)")
+    chk.assume("qrules' Particle and Spin define their own equality (name/pid/latex are not compared by qrules; quantum numbers, mass and width are): dependency, not under contract")
+    for cls in (D.TwoBodyDecay, D.StateWithID, qt.State, qt.InteractionProperties):
+        tag = f"{cls.__module__}.{cls.__qualname__}"
+        not_compared = [f.name for f in attrs.fields(cls) if not f.eq]
+
+        def rep(_m=None, cls=cls, not_compared=not_compared):
+            return {"reproduced": bool(not_compared), "input": f"attrs.fields({cls.__qualname__})", "observed": f"fields left out of ==/hash: {not_compared}",
+                    "expected": "every field compared: two decays that differ in an edge id (identical final-state particles) are different selector keys"}
+
+        chk.struct(f"selector_key.eq_compares_every_field[{tag}]", not not_compared, "ampform.helicity.DynamicsSelector.assign", witness=not_compared, replay=rep)
+        own = [m for m in ("__eq__", "__hash__") if m in cls.__dict__ and not getattr(cls.__dict__[m], "__module__", "").startswith("attr") and "attrs" not in (getattr(cls.__dict__[m], "__qualname__", "") or "")
+               and "generated" not in (getattr(getattr(cls.__dict__[m], "__code__", None), "co_filename", "") or "")]
+        chk.struct(f"selector_key.eq_is_attrs_generated[{tag}]", not own, "ampform.helicity.DynamicsSelector.assign", witness=own, lemma=True)
 
 
 def bounded_layer(chk: Check) -> None:
@@ -190,11 +216,13 @@ def symmetrised_selection(chk: Check) -> None:
             b = ampform.get_builder(r)
             missing = []
             all_decays = set()
+            decay_list = []
             for t in r.transitions:
                 for g in identical_permutations(t):
                     for n in g.topology.nodes:
                         d = TwoBodyDecay.from_transition(g, n)
                         all_decays.add(d)
+                        decay_list.append(d)
                         if d not in b.dynamics:
                             missing.append(f"{d.parent.particle.name} -> ids {d.children[0].id},{d.children[1].id}")
             problems = {"decays_of_symmetrised_chains_missing_from_selector": sorted(set(missing))[:6]}
@@ -207,6 +235,25 @@ def symmetrised_selection(chk: Check) -> None:
                     if d in b.dynamics and ((b.dynamics[d] is B) != (d.parent.particle.name in assigned)):
                         wrong.append(f"after assign({pname}): {d.parent.particle.name} ids {d.children[0].id},{d.children[1].id} -> {'B' if b.dynamics[d] is B else 'not B'}")
             problems["assign_by_name_maps_exactly_the_named_parents"] = wrong[:6]
+
+            # selection of ONE decay object: exactly the decays with the same content (states WITH their edge ids, helicities, interaction)
+            # get B. The identity is computed here from the fields, not with TwoBodyDecay.__eq__ (an equality that forgets the edge id
+            # would make the decay of the other identical particle carry B as well).
+            def ident(d):
+                st = lambda x: (x.id, x.particle.name, x.spin_projection)  # noqa: E731
+                return (st(d.parent), st(d.children[0]), st(d.children[1]), repr(d.interaction))
+
+            ordered = sorted({ident(d): d for d in decay_list}.values(), key=ident)
+            step = max(1, len(ordered) // 10)
+            wrong_one = []
+            for d in ordered[::step]:
+                b1 = ampform.get_builder(r)
+                B1 = OpaqueBuilder()
+                b1.dynamics.assign(d, B1)
+                for e in ordered:
+                    if e in b1.dynamics and ((b1.dynamics[e] is B1) != (ident(e) == ident(d))):
+                        wrong_one.append(f"assign(decay {ident(d)[:3]}): decay {ident(e)[:3]} -> {'B' if b1.dynamics[e] is B1 else 'not B'}")
+            problems["assign_one_decay_changes_exactly_that_decay"] = wrong_one[:6]
             model = b.formulate()
             no_b = []
             for cname, expr in model.components.items():
